@@ -81,7 +81,14 @@ func FuzzBIF3(f *testing.F) {
 	}
 	f.Fuzz(func(t *testing.T, which uint16, a, b, c string) {
 		e := bifs3[int(which)%len(bifs3)]
-		use(e.f(decodeArg(a), decodeArg(b), decodeArg(c)))
+		x, y, z := decodeArg(a), decodeArg(b), decodeArg(c)
+		if strings.Contains(e.name, "pad") {
+			// a pad width is an allocation request: 333333330 x a 2-byte pad string is a legitimate 600 MB, not a crash
+			if n, ok := y.GetIntValue(); ok && n > 1000000 {
+				return
+			}
+		}
+		use(e.f(x, y, z))
 	})
 }
 
